@@ -245,6 +245,10 @@ func (w *verifC30World) build() {
 		w.regCert(fmt.Sprintf("C%d", r), w.mkCert(r, g.Digest()))
 		w.regCert(fmt.Sprintf("CF%d", r), w.mkCert(r, f.Digest()))
 		w.regCert(fmt.Sprintf("CZ%d", r), w.mkCert(r, crypto.Digest{}))
+		w.regCert(fmt.Sprintf("CN%d", r), w.mkCert(r+1, g.Digest())) // right digest, certificate of another round
+		if r > 0 {
+			w.regCert(fmt.Sprintf("CP%d", r), w.mkCert(r-1, g.Digest()))
+		}
 	}
 }
 
